@@ -1729,6 +1729,12 @@ class Engine:
             q = self.fork(s1, z3.Not(t))
             if q is not None:
                 out += self.block(sm.orelse, q)
+        if getattr(self.contract, 'merge_ifs', False) and getattr(self, 'loop_depth', 0) > 0:
+            falls = [x[0] for x in out if x[1] == 'fall']
+            if len(falls) > 1:
+                m = self.merge_states(falls)
+                if m is not None:
+                    out = [x for x in out if x[1] != 'fall'] + [(m, 'fall', None)]
         return out
 
     def st_Raise(self, sm, st):
@@ -1910,10 +1916,19 @@ class Engine:
             nxt = []
             for s in states:
                 s = self.bind_target(sm.target, x, s)
-                for (s2, kind, v) in self.block(sm.body, s):
+                self.loop_depth = getattr(self, 'loop_depth', 0) + 1
+                try:
+                    body_out = self.block(sm.body, s)
+                finally:
+                    self.loop_depth -= 1
+                for (s2, kind, v) in body_out:
                     if kind in ('fall', 'continue'): nxt.append(s2)
                     elif kind == 'break': broke.append(s2)
                     else: out.append((s2, kind, v))
+            if len(nxt) > 1 and getattr(self.contract, 'merge_ifs', False):
+                m = self.merge_states(nxt)
+                if m is not None:
+                    nxt = [m]
             states = nxt
         for s in states:
             out += self.block(sm.orelse, s) if sm.orelse else [(s, 'fall', None)]
@@ -1948,7 +1963,12 @@ class Engine:
             states = nxt
         for hs in states:
             b = self.bind_target(sm.target, x, hs)
-            for (s2, kind, v) in self.block(sm.body, b):
+            self.loop_depth = getattr(self, 'loop_depth', 0) + 1
+            try:
+                body_out = self.block(sm.body, b)
+            finally:
+                self.loop_depth -= 1
+            for (s2, kind, v) in body_out:
                 if kind in ('fall', 'continue'):
                     if lc is not None:
                         for (nm, g) in lc.inv(self, s2, k + 1, st):
